@@ -41,7 +41,7 @@ def r1_r2(cx):
         if c.kind == "discr" and any(k == "call" and o.callee.name == "kind" for k, o in sl.origins(c.place)):
             tedge = variant_edge(b.term, ti)
     if tedge is None: raise AnchorMissing("listen: match on e.kind()")
-    arm = cfg.reach(tedge[2], blocked_nodes={acc.bb})
+    arm = cfg.after(tedge, blocked_nodes={acc.bb})
     err_rets = [s for s in ls.stmts() if s.kind == "assign" and s.lhs.l == 0 and s.rv == "agg" and isinstance(s.agg, dict) and s.agg.get("variant") == "Err" and s.bb in arm]
     # the countdown: the local compared with the quantum in the Timeout arm
     tw = None
@@ -126,7 +126,7 @@ def r1_r2(cx):
             if c.kind == "call" and c.term is loads[0]:
                 te, fe = bool_edges(b.term, c)
                 okr = [s.bb for s in ls.stmts() if s.kind == "assign" and s.lhs.l == 0 and s.rv == "agg" and isinstance(s.agg, dict) and s.agg.get("variant") == "Ok"]
-                okl = some is not None and cfg.must_pass(some[2], [acc.bb] + cfg.returns(), {loads[0].bb}) and any(x in cfg.reach(te[2], blocked_nodes={acc.bb}) for x in okr) and acc.bb not in cfg.reach(te[2])
+                okl = some is not None and cfg.must_pass(some[2], [acc.bb] + cfg.returns(), {loads[0].bb}) and any(x in cfg.after(te, blocked_nodes={acc.bb}) for x in okr) and acc.bb not in cfg.after(te)
     cx.check(okl, "C15.R2", "varlink:listen:stop-flag-polled", site, "a timed-out poll with a configured stop flag does not always load the flag, or a set flag does not return Ok(())", note_ok="Timeout & Some(flag): load(); true -> return Ok(())")
 
 
